@@ -196,7 +196,10 @@ def stage_judge_enum(run, resfile, prop, name="judge_enum", keep=False, replay=N
     j, vfiles, d = run.judge(name, "JudgeEnum", prop, resfile, unit=6000, keep=keep)
     run.traces += j["accepted"]
     run.distinct += j["accepted"]
-    run.stage(name, prop=prop, accepted_trees_judged=j["accepted"], failures=j["failures"], known=j["known"], secs=j["secs"], jvms=j["jvms"])
+    run.stage(name, prop=prop, accepted_trees_judged=j["accepted"], failures=j["failures"], known=j["known"], secs=j["secs"], jvms=j["jvms"],
+              codec_model_drift=j.get("drift", 0))
+    if j.get("drift", 0):
+        run.drift.append({"stage": name, "what": "decoded tree differs from ExprJson!RoundTripped for %d inputs" % j["drift"]})
     for vf in vfiles:
         run.add_verdicts(vf, replay or text_replay(prop))
 
@@ -292,7 +295,10 @@ def stage_judge_trees(run, resfile, prop, casefile, name="judge_trees", keep=Fal
     j, vfiles, d = run.judge(name, "JudgeTrees", prop, resfile, unit=(700 if prop == "C06" else 2500), keep=keep)
     run.traces += j["judged"]
     run.distinct += j["judged"]
-    run.stage(name, prop=prop, cases_judged=j["judged"], failures=j["failures"], known=j.get("known", 0), secs=j["secs"], jvms=j["jvms"])
+    run.stage(name, prop=prop, cases_judged=j["judged"], failures=j["failures"], known=j.get("known", 0), secs=j["secs"], jvms=j["jvms"],
+              codec_model_drift=j.get("drift", 0))
+    if j.get("drift", 0):
+        run.drift.append({"stage": name, "what": "decoded tree differs from ExprJson!RoundTripped for %d cases" % j["drift"]})
     for vf in vfiles:
         run.add_verdicts(vf, group_replay(prop, casefile))
 
